@@ -26,6 +26,12 @@ class _Boom(BaseException):
     pass
 
 
+class NoPickleSilent:
+    """cannot be pickled, and the exception says nothing (str(exc) == '')"""
+    def __reduce__(self):
+        raise TypeError
+
+
 class BadLoad:
     """pickle.dumps works; pickle.loads raises (ImportError / AttributeError / UnpicklingError by `how`)"""
     def __init__(self, how=0):
@@ -132,7 +138,8 @@ def make_object_class():
         @rpc_method
         def badres(self, tag, payload=None):
             self._enter(tag)
-            return real_threading.Lock()      # cannot be pickled
+            # cannot be pickled: alternately with an informative and with an EMPTY exception message
+            return real_threading.Lock() if len(self._execlog) % 4 < 2 else NoPickleSilent()
 
         @rpc_method
         def badload(self, tag, payload=None):
@@ -494,7 +501,8 @@ def scenario(s, spec):
             rec = {"caller": name, "kind": kind, "remote": proxy is not lp, "result": None, "done": False, "future": None}
             obs["calls"][tag] = rec
             meth = "ok" if kind in ("badarg", "badload_arg", "huge", "big") else ("badload" if kind == "badload_res" else kind)
-            payload = real_threading.Lock() if kind == "badarg" else (BadLoad(i) if kind == "badload_arg" else None)
+            payload = ((real_threading.Lock() if i % 2 == 0 else NoPickleSilent()) if kind == "badarg"
+                       else (BadLoad(i) if kind == "badload_arg" else None))
             if kind == "huge":
                 payload = bytes(1200000)      # a request above 1 MB: many recv() rounds, still one message in its place
             elif kind == "big":
